@@ -28,6 +28,8 @@ pub enum Profile {
     Auth,
     /// relationship graphs
     Related,
+    /// mutate-message tracking on, small messages, loss heavy (C12 end to end)
+    Tracked,
 }
 
 impl Profile {
@@ -43,6 +45,7 @@ impl Profile {
             Profile::Events => "events",
             Profile::Auth => "auth",
             Profile::Related => "related",
+            Profile::Tracked => "tracked",
         }
     }
     pub fn from_name(s: &str) -> Option<Self> {
@@ -57,6 +60,7 @@ impl Profile {
             Profile::Events,
             Profile::Auth,
             Profile::Related,
+            Profile::Tracked,
         ]
         .into_iter()
         .find(|p| p.name() == s)
@@ -148,6 +152,17 @@ pub fn cfg_strategy(p: Profile, thorough: bool) -> BoxedStrategy<Cfg> {
                     .prop_map(move |(a, m, v)| Cfg { auth: a, mismatch: if a != 0 { m & 0b101 } else { 0 }, vis: v, ..c.clone() })
                     .boxed()
             }
+            Profile::Tracked => {
+                c.track = true;
+                c.big = true;
+                c.policy = 0;
+                c.children = b1;
+                c.sync = b1 && b2;
+                if b3 {
+                    c.max_size[0] = 60;
+                }
+                Just(c).boxed()
+            }
             Profile::Related => {
                 c.children = true;
                 c.sync = true;
@@ -164,7 +179,7 @@ pub fn cfg_strategy(p: Profile, thorough: bool) -> BoxedStrategy<Cfg> {
 pub fn step_strategy(cfg: &Cfg, p: Profile) -> BoxedStrategy<Step> {
     let slots = cfg.slots;
     let clients = cfg.clients;
-    let lossy = matches!(p, Profile::Lossy);
+    let lossy = matches!(p, Profile::Lossy | Profile::Tracked);
     let structural = matches!(p, Profile::Structural);
     let w = |on: bool, w: u32| if on { w } else { 0 };
     let mut v: Vec<(u32, BoxedStrategy<Step>)> = vec![
@@ -188,6 +203,10 @@ pub fn step_strategy(cfg: &Cfg, p: Profile) -> BoxedStrategy<Step> {
     v.push((w(cfg.children, 4), (0..slots, 0..slots).prop_map(|(slot, parent)| Step::SetParent { slot, parent }).boxed()));
     v.push((w(cfg.children, 2), (0..slots).prop_map(|slot| Step::DelParent { slot }).boxed()));
     v.push((w(cfg.vis != 0, 6), (0..clients, 0..slots, any::<bool>()).prop_map(|(client, slot, visible)| Step::Vis { client, slot, visible }).boxed()));
+    v.push((
+        w(cfg.vis != 0, if matches!(p, Profile::Vis) { 4 } else { 1 }),
+        (0..clients, 0..slots, proptest::collection::vec(any::<bool>(), 2..5)).prop_map(|(client, slot, pattern)| Step::VisBurst { client, slot, pattern }).boxed(),
+    ));
     v.push((
         w(cfg.prespawn, 4),
         (0..clients, 0..slots, proptest::bool::weighted(0.2), any::<bool>()).prop_map(|(client, slot, kill, gap)| Step::PreSpawn { client, slot, kill, gap }).boxed(),
@@ -253,6 +272,9 @@ pub fn run_case(id: &'static str, case: &Case, or: Oracles, nontrivial: fn(&Sim)
         }
         if fail.is_none() && or.unauth {
             fail = oracle::check_auth_final(&mut sim).err();
+        }
+        if fail.is_none() && or.mutate_ticks {
+            fail = oracle::check_mutate_ticks_final(&mut sim).err();
         }
         if fail.is_none() && or.silence {
             fail = oracle::check_silence(&mut sim).err();
